@@ -1,5 +1,6 @@
 import PgFdr.Proofs.C04
 import PgFdr.Props.C03
+import PgFdr.Proofs.C04Unshared
 
 /-!
 # C04 — rescue regrouping keeps a partition and merges only along shared peptides
@@ -497,5 +498,333 @@ example : exComp ∈ comps (edges exN (filterByCutoff exPil (1/20))) (allNodes e
 /-- `rescue_score_spec` on rows where one q-value equals the threshold (not accepted) -/
 example : rescueScore [(4, 1/100), (3, 1/50), (2, 1/20), (1, 1/2)] (1/20) = some 3 := by decide +kernel
 example : rescueScore [(4, 1/100), (3, 1/50)] (1/1000) = some 3 := by decide +kernel
+
+/-! ## The last sentence on the composed model of `get_protein_group_results`
+
+"When no peptide is shared between proteins the rescue pass reports exactly the groups, scores and
+q-values that plain subset grouping reports."
+
+`Pipeline.run cfg inp` (Model/Pipeline.lean) is the composed model the driver op `pipeline` executes and
+`harness/pipeline.py` compares with the real function field by field.  The theorems below compare TWO runs
+on the same peptide list: `cfg` with `grouping = rescuedSubset` (two passes: four recorded shuffles, a
+recorded cut map, a recorded float cutoff, two recorded score vectors) and the same configuration with
+`grouping = subset` (one pass: two recorded shuffles, one score vector).  Everything recorded is quantified
+independently for the two runs (`inp`, `inpS` share only `pil` and the razor keys).
+
+Hypotheses and why they are there
+* `hun : Unshared inp.pil` — "no peptide is shared between proteins": no peptide lists two different
+  proteins (a protein may be listed repeatedly).
+* `hkeys` — the peptide list is a `dict` (unique keys); needed by the subset-grouping theorems of C03.
+* `hsc2`, `hscS` — the recorded float scores are a function `sc` of a group's evidence list, the same in
+  both runs (`calculate_score` is; the harness checks `score = −log10(min PEP + tiny)` on every case).
+* `hdist` — "pairwise distinct scores": among the groups of the plain run that have evidence.  With tied
+  scores the two runs draw the tie order from different shuffles; with a picked strategy a tie between a
+  target and its decoy then even changes WHICH of the two survives, so only `…_ties_partial` holds.
+* `hnoobs` (picked-group strategies only) — no input identifier contains the reserved marker `OBSOLETE__`.
+  The second competition of a picked-group method also ranks one placeholder `OBSOLETE__p` per first-pass
+  group that kept a peptide (`add_unseen_protein_groups` creates one even for a group that is re-created
+  identically); it ties with `p` and is sorted behind it only because `p` itself is not a placeholder. -/
+
+open Pipeline in
+/-- "… the rescue pass reports exactly the groups, scores and q-values that plain subset grouping
+    reports" — for the ranking handed to the report: when the scores of the groups with evidence are
+    pairwise distinct, the ranking of the rescue pass (groups, their evidence, scores — as a LIST, so also
+    the order), the FDR estimates and the q-values are those of the plain subset-grouping run, whatever
+    shuffles, cuts and cutoff the two runs recorded.  In particular every placeholder is removed by the
+    second competition. -/
+theorem rescue_trivial_when_unshared (cfg : Config) (inp inpS : Input) (r rS : Result) (p2 : PassOut)
+    (sc : List Evidence → Rat)
+    (hcfg : cfg.grouping = .rescuedSubset)
+    (hrun : run cfg inp = .ok r) (hrunS : run { cfg with grouping := .subset } inpS = .ok rS)
+    (hp2 : r.pass2 = some p2)
+    (hpil : inpS.pil = inp.pil) (hrzk : inpS.razorKeys = inp.razorKeys)
+    (hkeys : (inp.pil.map (·.peptide)).Nodup) (hun : Unshared inp.pil)
+    (hnoobs : isPickedGroup cfg.mode = true →
+      ∀ x ∈ inp.pil, ∀ p ∈ x.proteins, strContains p "OBSOLETE__" = false)
+    (hsc2 : inp.scores2 = p2.compInfos.map sc) (hscS : inpS.scores1 = rS.pass1.compInfos.map sc)
+    (hdist : (((zipItems rS.pass1.compGroups rS.pass1.compInfos inpS.scores1).filter
+      (·.hasEvidence)).map (·.score)).Nodup) :
+    p2.ranking = rS.pass1.ranking ∧ p2.fdrs = rS.pass1.fdrs ∧ p2.qvals = rS.pass1.qvals := by
+  obtain ⟨G1, G2, X, h⟩ := unsharedRuns cfg inp inpS r rS p2 sc hcfg hrun hrunS hp2 hpil hrzk hkeys hun hsc2 hscS
+  exact unshared_ranking_eq cfg inp inpS p2 rS.pass1 sc G1 G2 X h hnoobs hdist
+
+open Pipeline in
+/-- "… reports …": the rows.  The rescue pass counts peptides up to its PEP cutoff, the plain run up to
+    `inf`; this changes the peptide-count column and — unless `keep_all_proteins` is set — drops the rows
+    none of whose proteins has a peptide within the cutoff.  So, under the hypotheses above: the rows of the
+    rescue run, with the count-derived columns left out (`rowCore`: proteins, best peptide, number of
+    proteins, q-value, score, decoy and contaminant flags), are a SUB-LIST of the rows of the plain run (no
+    row is added, changed or reordered), and they are the same list when `keep_all_proteins` is set. -/
+theorem rescue_trivial_when_unshared_rows (cfg : Config) (inp inpS : Input) (r rS : Result) (p2 : PassOut)
+    (sc : List Evidence → Rat)
+    (hcfg : cfg.grouping = .rescuedSubset)
+    (hrun : run cfg inp = .ok r) (hrunS : run { cfg with grouping := .subset } inpS = .ok rS)
+    (hp2 : r.pass2 = some p2)
+    (hpil : inpS.pil = inp.pil) (hrzk : inpS.razorKeys = inp.razorKeys) (hka : inpS.keepAll = inp.keepAll)
+    (hkeys : (inp.pil.map (·.peptide)).Nodup) (hun : Unshared inp.pil)
+    (hnoobs : isPickedGroup cfg.mode = true →
+      ∀ x ∈ inp.pil, ∀ p ∈ x.proteins, strContains p "OBSOLETE__" = false)
+    (hsc2 : inp.scores2 = p2.compInfos.map sc) (hscS : inpS.scores1 = rS.pass1.compInfos.map sc)
+    (hdist : (((zipItems rS.pass1.compGroups rS.pass1.compInfos inpS.scores1).filter
+      (·.hasEvidence)).map (·.score)).Nodup) :
+    (r.rows.map rowCore).Sublist (rS.rows.map rowCore) ∧
+      (inp.keepAll = true → r.rows.map rowCore = rS.rows.map rowCore) := by
+  obtain ⟨G1, G2, X, h⟩ := unsharedRuns cfg inp inpS r rS p2 sc hcfg hrun hrunS hp2 hpil hrzk hkeys hun hsc2 hscS
+  obtain ⟨-, -, hrowsS⟩ := runFacts_plain { cfg with grouping := .subset } inpS rS (by simp) hrunS
+  obtain ⟨-, p2', -, -, hp2', -, -, -, -, hrows⟩ := runFacts_rescue cfg inp r hcfg hrun
+  rw [hp2] at hp2'
+  cases hp2'
+  rw [hrows, hrowsS]
+  exact unshared_rows cfg inp inpS p2 rS.pass1 sc G1 G2 X h hnoobs hdist hka
+
+open Pipeline in
+/-- Tied scores, run by run, as far as it is true of the code: with the classic strategy the two rankings hold
+    the same (group, evidence, score) triples — equal as multisets; the order inside a tie (and with it the
+    estimates of the tied groups) is drawn from different shuffles.
+    Missing case (hence `_partial`): picked and picked-group strategies with tied scores.  There the
+    run-by-run statement is false: if a target group and its decoy twin tie, the shuffle decides which of the
+    two survives, and the two runs consume different shuffles; what holds is `rescue_trivial_when_unshared_ties`. -/
+theorem rescue_trivial_when_unshared_ties_partial (cfg : Config) (inp inpS : Input) (r rS : Result) (p2 : PassOut)
+    (sc : List Evidence → Rat)
+    (hcfg : cfg.grouping = .rescuedSubset) (hmode : cfg.mode = .classic)
+    (hrun : run cfg inp = .ok r) (hrunS : run { cfg with grouping := .subset } inpS = .ok rS)
+    (hp2 : r.pass2 = some p2)
+    (hpil : inpS.pil = inp.pil) (hrzk : inpS.razorKeys = inp.razorKeys)
+    (hkeys : (inp.pil.map (·.peptide)).Nodup) (hun : Unshared inp.pil)
+    (hsc2 : inp.scores2 = p2.compInfos.map sc) (hscS : inpS.scores1 = rS.pass1.compInfos.map sc) :
+    p2.ranking.Perm rS.pass1.ranking := by
+  obtain ⟨G1, G2, X, h⟩ := unsharedRuns cfg inp inpS r rS p2 sc hcfg hrun hrunS hp2 hpil hrzk hkeys hun hsc2 hscS
+  exact unshared_classic_perm cfg inp inpS p2 rS.pass1 sc G1 G2 X h hmode
+
+open Pipeline in
+/-- The same sentence with TIED scores allowed, every strategy: whatever the rescue run's shuffles were, the
+    ranking of its second pass is a ranking the plain run's competition produces — there are shuffles
+    `π₁' π₂'` of the plain run's own competition input for which `do_competition` returns exactly that list
+    (and the estimates and q-values are the function `calculate_protein_fdrs` of the ranking in both runs).
+    "Equal up to the tie order, which the shuffles draw."  The converse inclusion (every outcome of the plain
+    run is an outcome of the rescue run) is not proved. -/
+theorem rescue_trivial_when_unshared_ties (cfg : Config) (inp inpS : Input) (r rS : Result) (p2 : PassOut)
+    (sc : List Evidence → Rat)
+    (hcfg : cfg.grouping = .rescuedSubset)
+    (hrun : run cfg inp = .ok r) (hrunS : run { cfg with grouping := .subset } inpS = .ok rS)
+    (hp2 : r.pass2 = some p2)
+    (hpil : inpS.pil = inp.pil) (hrzk : inpS.razorKeys = inp.razorKeys)
+    (hkeys : (inp.pil.map (·.peptide)).Nodup) (hun : Unshared inp.pil)
+    (hnoobs : isPickedGroup cfg.mode = true →
+      ∀ x ∈ inp.pil, ∀ p ∈ x.proteins, strContains p "OBSOLETE__" = false)
+    (hsc2 : inp.scores2 = p2.compInfos.map sc) (hscS : inpS.scores1 = rS.pass1.compInfos.map sc) :
+    (∃ π₁' π₂', C02.ShufflesOK cfg.mode (zipItems rS.pass1.compGroups rS.pass1.compInfos inpS.scores1) π₁' π₂' ∧
+      C02.doCompetition cfg.mode (zipItems rS.pass1.compGroups rS.pass1.compInfos inpS.scores1) π₁' π₂' =
+        p2.ranking) ∧
+    C01.calcProteinFdrs (p2.ranking.map (·.group)) (p2.ranking.map (·.score)) = .ok (p2.fdrs, p2.qvals) ∧
+    C01.calcProteinFdrs (rS.pass1.ranking.map (·.group)) (rS.pass1.ranking.map (·.score)) =
+      .ok (rS.pass1.fdrs, rS.pass1.qvals) := by
+  obtain ⟨G1, G2, X, h⟩ := unsharedRuns cfg inp inpS r rS p2 sc hcfg hrun hrunS hp2 hpil hrzk hkeys hun hsc2 hscS
+  exact ⟨unshared_ties cfg inp inpS p2 rS.pass1 sc G1 G2 X h hnoobs, h.facts2.fdrs, h.factsS.fdrs⟩
+
+/-! ### Non-vacuity of the end-to-end theorems
+
+A picked-group run on three proteins without shared peptides: `A` (PEP 1/1000), `B` (1/10) and the decoy
+`REV__A` (1/100).  First pass: `REV__A` loses against `A`; q-values 1/3, 1/3; threshold 1/2 accepts both, the
+rescue score is −1/10.  The recorded cutoff 1/20 keeps `PEPA` and `PEPR`: the rescue stage re-creates `[A]` and
+`[REV__A]`, `[B]` is a remnant, and TWO placeholders `OBSOLETE__A`, `OBSOLETE__REV__A` enter the second
+competition (five groups, shuffle `[0,3,1,4,2]`), which removes both.  The recorded shuffles put the lists in
+sorted order (`mergeSort` does not reduce in the kernel; `keptFrom_sorted`, `competeFrom_sorted`,
+`cutoff_sorted`).  Scores are the executable best-PEP key `−min PEP`.  The data (`demoPil`, `demoCfg`, `demoInp`,
+`demoInpS`) and the evaluation of the two runs (`demo_run`, `demo_runS`) are in `Proofs/C04Unshared.lean`. -/
+
+section EndToEndExample
+open Pipeline
+
+/-- every hypothesis of `rescue_trivial_when_unshared` holds on the two runs (both succeed: `demo_run`,
+    `demo_runS`; scores distinct; no identifier contains `OBSOLETE__`) -/
+example : demoPass2.ranking = demoResS.pass1.ranking ∧ demoPass2.fdrs = demoResS.pass1.fdrs ∧ demoPass2.qvals = demoResS.pass1.qvals :=
+  rescue_trivial_when_unshared demoCfg demoInp demoInpS demoRes demoResS demoPass2 C05.bestPepKey rfl demo_run demo_runS rfl rfl rfl
+    (by decide) (by unfold Unshared; decide) (fun _ => by decide +kernel) (by decide +kernel) (by decide +kernel)
+    (by decide +kernel)
+
+
+/-- … and the rows (`keep_all_proteins` off): here no row is dropped, `B`'s PEP is within the cutoff 1/10 -/
+example : (demoRes.rows.map rowCore).Sublist (demoResS.rows.map rowCore) ∧
+    (demoInp.keepAll = true → demoRes.rows.map rowCore = demoResS.rows.map rowCore) :=
+  rescue_trivial_when_unshared_rows demoCfg demoInp demoInpS demoRes demoResS demoPass2 C05.bestPepKey rfl demo_run demo_runS rfl rfl rfl rfl
+    (by decide) (by unfold Unshared; decide) (fun _ => by decide +kernel) (by decide +kernel) (by decide +kernel)
+    (by decide +kernel)
+
+/-- `rescue_trivial_when_unshared_ties` on the same two runs -/
+example : ∃ π₁' π₂', C02.ShufflesOK demoCfg.mode (zipItems demoResS.pass1.compGroups demoResS.pass1.compInfos demoInpS.scores1) π₁' π₂' ∧
+    C02.doCompetition demoCfg.mode (zipItems demoResS.pass1.compGroups demoResS.pass1.compInfos demoInpS.scores1) π₁' π₂' = demoPass2.ranking :=
+  (rescue_trivial_when_unshared_ties demoCfg demoInp demoInpS demoRes demoResS demoPass2 C05.bestPepKey rfl demo_run demo_runS rfl rfl rfl
+    (by decide) (by unfold Unshared; decide) (fun _ => by decide +kernel) (by decide +kernel) (by decide +kernel)).1
+
+/-! A classic run on two proteins with TIED scores (`A`, `B`, both PEP 1/100): the rescue run's second
+competition draws the shuffle `[1,0]`, the plain run `[0,1]`. -/
+
+private def tPil : List PepInfo := [⟨"PEPA", 1/100, ["A"]⟩, ⟨"PEPB", 1/100, ["B"]⟩]
+private def tCfg : Config := ⟨.rescuedSubset, false, .classic⟩
+private def tInp : Input where
+  pil := tPil
+  thr := 1/2
+  psm := 1/100
+  keepAll := false
+  shuffles := [[0,1],[0,1],[1,0],[0,1]]
+  cuts := []
+  razorKeys := []
+  scores1 := [-1/100, -1/100]
+  scores2 := [-1/100, -1/100]
+  rescueCutoff := some (1/50)
+private def tInpS : Input where
+  pil := tPil
+  thr := 1/100
+  psm := 1/100
+  keepAll := false
+  shuffles := [[0,1],[0,1]]
+  cuts := []
+  razorKeys := []
+  scores1 := [-1/100, -1/100]
+  scores2 := []
+  rescueCutoff := none
+
+private def fA : List Evidence := [⟨1/100, "PEPA", ["A"]⟩]
+private def fB : List Evidence := [⟨1/100, "PEPB", ["B"]⟩]
+private def jA : C02.Item := ⟨["A"], fA, -1/100⟩
+private def jB : C02.Item := ⟨["B"], fB, -1/100⟩
+private def rowA (q : Rat) : C06.RowData := ⟨["A"], ["A"], [1], "PEPA", 1, q, -1/100, false, false⟩
+private def rowB (q : Rat) : C06.RowData := ⟨["B"], ["B"], [1], "PEPB", 1, q, -1/100, false, false⟩
+
+/-- one pass of the tie example: first shuffle `π`, ranking `rk` (`[A, B]` or `[B, A]`) -/
+private def tPass (rk : List C02.Item) (rows : List C06.RowData) : PassOut where
+  groups := [["A"], ["B"]]
+  infos := [fA, fB]
+  pepList := [1/100, 1/100]
+  pepCutoff := 1
+  compGroups := [["A"], ["B"]] ++ ([] : List (List String × List Evidence)).map (·.1)
+  compInfos := [fA, fB] ++ ([] : List (List String × List Evidence)).map (·.2)
+  minPeps := ([fA, fB] ++ ([] : List (List String × List Evidence)).map (·.2)).map C05.minPep
+  ranking := rk
+  fdrs := [1/2, 1/3]
+  qvals := [1/3, 1/3]
+  rows := rows
+
+private theorem tie_pass (cfg : Config) (inp : Input) (rs : Bool) (π : List Nat) (rk : List C02.Item)
+    (rows : List C06.RowData)
+    (hm : cfg.mode = .classic) (hr : cfg.razor = false)
+    (hp : inp.pil = tPil) (hpsm : inp.psm = 1/100) (hka : inp.keepAll = false)
+    (hπ : (π = [0,1] ∧ rk = [jA, jB] ∧ rows = [rowA (1/3), rowB (1/3)]) ∨
+          (π = [1,0] ∧ rk = [jB, jA] ∧ rows = [rowB (1/3), rowA (1/3)])) :
+    runPassFrom cfg inp [] [["A"], ["B"]] [] rs [-1/100, -1/100] π [0,1] = .ok (tPass rk rows, []) := by
+  have hfilt : (zipItems ([["A"], ["B"]] ++ ([] : List (List String × List Evidence)).map (·.1))
+      ([fA, fB] ++ ([] : List (List String × List Evidence)).map (·.2)) [-1/100, -1/100]).filter (·.hasEvidence) =
+      [jA, jB] := by decide +kernel
+  have hsh : C02.shuffle [jA, jB] π = rk := by
+    rcases hπ with ⟨rfl, rfl, _⟩ | ⟨rfl, rfl, _⟩ <;> decide +kernel
+  have hrk : rk = [jA, jB] ∨ rk = [jB, jA] := by
+    rcases hπ with ⟨_, h, _⟩ | ⟨_, h, _⟩
+    · exact Or.inl h
+    · exact Or.inr h
+  have h1 : (C02.shuffle ((zipItems ([["A"], ["B"]] ++ ([] : List (List String × List Evidence)).map (·.1))
+      ([fA, fB] ++ ([] : List (List String × List Evidence)).map (·.2)) [-1/100, -1/100]).filter (·.hasEvidence)) π).Pairwise
+      (fun a b => C02.le1 a b = true) := by
+    rw [hfilt, hsh]; rcases hrk with rfl | rfl <;> decide +kernel
+  have hpass : C02.pass (C02.strategy .classic) C02.contam [] rk = rk := by
+    rcases hrk with rfl | rfl <;> decide +kernel
+  have hsh2 : C02.shuffle rk [0,1] = rk := by
+    rcases hrk with rfl | rfl <;> decide +kernel
+  refine runPassFrom_eval cfg inp [] _ [] rs _ _ _ [fA, fB] [1/100, 1/100] 1 rk [] [1/2, 1/3] [1/3, 1/3]
+    rows ?_ ?_ ?_ ?_ ?_ ?_ ?_ ?_ ?_
+  · rw [hp]; simp only [razorOf, hr, Bool.false_eq_true, if_false]; cases rs <;> decide +kernel
+  · rw [hpsm, cutoff_sorted _ _ (by decide +kernel)]; decide +kernel
+  · decide +kernel
+  · decide +kernel
+  · unfold C02.shufflesFit
+    simp only [hm]
+    rw [keptFrom_sorted _ _ _ _ h1, hfilt, hsh, hpass]
+    rcases hπ with ⟨rfl, rfl, _⟩ | ⟨rfl, rfl, _⟩ <;> decide +kernel
+  · rw [hm, competeFrom_sorted _ _ _ _ _ h1 (by rw [hfilt, hsh, hpass, hsh2]; rcases hrk with rfl | rfl <;> decide +kernel),
+      hfilt, hsh, hpass, hsh2]
+    rcases hrk with rfl | rfl <;> decide +kernel
+  · rcases hrk with rfl | rfl <;> rfl
+  · rcases hrk with rfl | rfl <;> decide +kernel
+  · rw [hka]
+    rcases hπ with ⟨_, rfl, rfl⟩ | ⟨_, rfl, rfl⟩ <;> cases rs <;> decide +kernel
+
+
+private def tOut : RescueOut (List Evidence) where
+  filtered := tPil
+  rescued := [["A"], ["B"]]
+  groups := [["A"], ["B"]]
+  obsolete := [["OBSOLETE__A"], ["OBSOLETE__B"]]
+  obsoleteInfos := [fA, fB]
+
+private theorem tie_rescue : rescueGroups ([["A"], ["B"]].zip [fA, fB]) tPil (1/50) [] = .ok tOut := by
+  have ha : (rescueGroups ([["A"], ["B"]].zip [fA, fB]) tPil (1/50) []).toOption.map
+      (fun o => (o.filtered, o.rescued, o.groups)) = some (tOut.filtered, tOut.rescued, tOut.groups) := by
+    decide +kernel
+  have hb : (rescueGroups ([["A"], ["B"]].zip [fA, fB]) tPil (1/50) []).toOption.map
+      (fun o => (o.obsolete, o.obsoleteInfos)) = some (tOut.obsolete, tOut.obsoleteInfos) := by
+    decide +kernel
+  cases hr : rescueGroups ([["A"], ["B"]].zip [fA, fB]) tPil (1/50) [] with
+  | error e => rw [hr] at ha; cases ha
+  | ok out =>
+    rw [hr] at ha hb
+    simp only [Except.toOption, Option.map_some, Option.some.injEq, Prod.mk.injEq] at ha hb
+    obtain ⟨h1, h2, h3⟩ := ha
+    obtain ⟨h4, h5⟩ := hb
+    cases out
+    simp only at h1 h2 h3 h4 h5
+    subst h1 h2 h3 h4 h5
+    rfl
+
+private def tP1 : PassOut := tPass [jA, jB] [rowA (1/3), rowB (1/3)]
+private def tP2 : PassOut := tPass [jB, jA] [rowB (1/3), rowA (1/3)]
+
+private def tR : Result where
+  pass1 := tP1
+  rescueScore := some (-1/100)
+  rescue := some tOut
+  pass2 := some tP2
+  rows := [rowB (1/3), rowA (1/3)]
+
+private def tRS : Result where
+  pass1 := tP1
+  rescueScore := none
+  rescue := none
+  pass2 := none
+  rows := [rowA (1/3), rowB (1/3)]
+
+private theorem tie_run : run tCfg tInp = .ok tR := by
+  have hG : firstGrouping tCfg tInp.pil = [["A"], ["B"]] := by decide +kernel
+  have h1 : runPassFrom tCfg tInp [] (firstGrouping tCfg tInp.pil) [] false tInp.scores1 (shuffleAt tInp 0)
+      (shuffleAt tInp 1) = .ok (tP1, []) := by
+    rw [hG]; exact tie_pass tCfg tInp false [0,1] _ _ rfl rfl rfl rfl rfl (Or.inl ⟨rfl, rfl, rfl⟩)
+  have hs : rescueScore (tP1.rows.map (fun r => (r.score, r.qValue))) tInp.thr = some (-1/100) := by decide +kernel
+  have hc : tInp.rescueCutoff = some (1/50) := rfl
+  have hgr : tCfg.grouping = .rescuedSubset := rfl
+  have hr : rescueGroups (tP1.groups.zip tP1.infos) tInp.pil (1/50) tInp.cuts = .ok tOut := tie_rescue
+  have hpk : isPickedGroup tCfg.mode = false := rfl
+  have h2 : runPassFrom tCfg tInp [] tOut.groups [] true tInp.scores2
+      (shuffleAt tInp 2) (shuffleAt tInp 3) = .ok (tP2, []) :=
+    tie_pass tCfg tInp true [1,0] _ _ rfl rfl rfl rfl rfl (Or.inr ⟨rfl, rfl, rfl⟩)
+  unfold run runFrom
+  simp only [h1, hgr, hs, hc, hr, hpk, h2, ne_eq, not_true_eq_false, if_false, Bool.false_eq_true]
+  rfl
+
+private theorem tie_runS : run { tCfg with grouping := .subset } tInpS = .ok tRS := by
+  have hG : firstGrouping { tCfg with grouping := .subset } tInpS.pil = [["A"], ["B"]] := by decide +kernel
+  have h1 : runPassFrom { tCfg with grouping := .subset } tInpS [] (firstGrouping { tCfg with grouping := .subset } tInpS.pil)
+      [] false tInpS.scores1 (shuffleAt tInpS 0) (shuffleAt tInpS 1) = .ok (tP1, []) := by
+    rw [hG]; exact tie_pass _ tInpS false [0,1] _ _ rfl rfl rfl rfl rfl (Or.inl ⟨rfl, rfl, rfl⟩)
+  unfold run runFrom
+  simp only [h1, ne_eq, reduceCtorEq, not_false_eq_true, if_true]
+  rfl
+
+/-- the two rankings are rearrangements of each other (`rescue_trivial_when_unshared_ties_partial`) but NOT
+    equal: the hypothesis `hdist` of `rescue_trivial_when_unshared` cannot be dropped -/
+example : tP2.ranking.Perm tRS.pass1.ranking ∧ tP2.ranking ≠ tRS.pass1.ranking :=
+  ⟨rescue_trivial_when_unshared_ties_partial tCfg tInp tInpS tR tRS tP2 C05.bestPepKey rfl rfl tie_run tie_runS rfl rfl rfl
+    (by decide) (by unfold Unshared; decide) (by decide +kernel) (by decide +kernel), by decide +kernel⟩
+
+
+end EndToEndExample
 
 end PgFdr.C04
